@@ -133,34 +133,52 @@ func c12Multistore(r *Report) {
 		side  string
 	}
 	var got []ext
-	cl := firstCompositeLit(fd)
-	if cl != nil {
-		for _, e := range cl.Elts {
-			kv, ok := e.(*ast.KeyValueExpr)
-			if !ok {
-				continue
+	// decided on the resolved values stored into the MultiStoreProof fields (so `p := ep.Path; p[0]…` reads the same)
+	if fn := w.Fn("client/grpc/oracle/proof.GetMultiStoreProof"); fn != nil {
+		var findIdx func(t *Term) (int, bool)
+		findIdx = func(t *Term) (int, bool) {
+			if t == nil {
+				return 0, false
 			}
-			s := exprString(w, kv.Value)
-			i := strings.Index(s, ".Path[")
-			if i < 0 {
-				continue
+			if t.Op == "index" && len(t.Args) == 2 && t.Args[0].Has("field:ExistenceProof.Path") && t.Args[1].Op == "const" {
+				if n, err := strconv.Atoi(t.Args[1].Name); err == nil {
+					return n, true
+				}
 			}
-			rest := s[i+6:]
-			j := strings.Index(rest, "]")
-			n, err := strconv.Atoi(rest[:j])
-			if err != nil {
-				continue
+			for _, a := range t.Args {
+				if n, ok := findIdx(a); ok {
+					return n, true
+				}
 			}
-			side := ""
-			switch {
-			case strings.Contains(rest[j:], ".Prefix[1:]"):
-				side = "P"
-			case strings.Contains(rest[j:], ".Suffix"):
-				side = "S"
+			return 0, false
+		}
+		for _, b := range fn.Blocks {
+			for _, in := range b.Instrs {
+				st, ok := in.(*ssa.Store)
+				if !ok {
+					continue
+				}
+				fa, ok := st.Addr.(*ssa.FieldAddr)
+				if !ok || !strings.HasSuffix(fieldName(fa.X.Type(), fa.Field), ".?") && !strings.HasPrefix(fieldName(fa.X.Type(), fa.Field), "MultiStoreProof.") {
+					continue
+				}
+				t := Render(st.Val)
+				n, ok := findIdx(t)
+				if !ok {
+					continue
+				}
+				side := ""
+				switch {
+				case t.Has("field:InnerOp.Prefix", "slice:lo"):
+					side = "P"
+				case t.Has("field:InnerOp.Suffix"):
+					side = "S"
+				}
+				got = append(got, ext{strings.TrimPrefix(fieldName(fa.X.Type(), fa.Field), "MultiStoreProof."), n, side})
 			}
-			got = append(got, ext{exprString(w, kv.Key), n, side})
 		}
 	}
+	_ = firstCompositeLit
 	sort.Slice(got, func(i, j int) bool { return got[i].idx < got[j].idx })
 	if len(got) != len(sides) {
 		r.Bad("multistore|depth", d, w.Pos(fd.Pos()), fmt.Sprintf("the proof code reads %d path steps but the oracle leaf sits at depth %d among %d stores", len(got), len(sides), len(names)))
